@@ -79,9 +79,14 @@ func posSeq(ns xsel.NodeSet) string {
 func c03Case(r *evid.Run, tier string, idx int, g *rng.R) {
 	o := adoc.GenOpts{MinNodes: 6, MaxNodes: 50, NS: g.Intn(3), Misc: g.P(50), Weird: g.P(15), NoXMLNS: g.P(30)}
 	d := adoc.Generate(g, o)
+	if o.NS > 0 && g.P(50) {
+		adoc.NSQuirks(g, d, true)
+		d.Finish()
+	}
 	w, err := newWorld(d)
 	if err != nil {
-		r.Inconclusive("store tree mismatch: " + err.Error())
+		// duplicate or misplaced positions show up here first: a tree that does not mirror the stream
+		r.Violate("store-tree-mismatch", map[string]any{"case": idx, "what": err.Error(), "document": d.Dump()})
 		return
 	}
 	shape := d.Shape()
@@ -174,6 +179,9 @@ func c03Case(r *evid.Run, tier string, idx int, g *rng.R) {
 		rv := rng.Pick(g, []string{"ancestor", "preceding", "preceding-sibling", "ancestor-or-self"})
 		fw := rng.Pick(g, []string{"child", "descendant", "following-sibling", "attribute", "namespace", "self", "following", "descendant-or-self"})
 		makers := []xast.Expr{
+			// namespace nodes and attributes (and children) of the same elements in one sorted set
+			xast.Binary{Op: "|", L: xast.Abs(xast.DS(), x, xast.S("namespace", xast.AnyT())), R: xast.Abs(xast.DS(), x, xast.Step{Axis: "attribute", Test: xast.AnyT(), Abbrev: true})},
+			xast.Binary{Op: "|", L: xast.Abs(xast.DS(), xast.S("child", xast.AnyT()), xast.S("namespace", xast.NodeT())), R: xast.Abs(xast.DS(), xast.S("child", xast.NodeT()))},
 			xast.Abs(xast.DS(), x, xast.Step{Axis: "parent", Test: xast.NodeT(), Abbrev: true}),
 			xast.Abs(xast.DS(), x, xast.S("ancestor", xast.AnyT())),
 			xast.Abs(xast.DS(), x, xast.S("preceding", xast.AnyT()), xast.Step{Axis: "attribute", Test: xast.AnyT(), Abbrev: true}),
